@@ -197,6 +197,12 @@ func (v *Vue) evaluateNodeAsElement(ctx VueContext, node *html.Node, depth int) 
 
 	// Special handling for template tags: evaluate bound attributes and set them in current scope
 	if node.Data == "template" {
+		// A chain member that is an include (or a component tag, which is rewritten to one) includes its
+		// component like any other include; the chain directives on it are not props
+		if helpers.HasAttr(node, "include") {
+			return v.evalTemplate(ctx, []*html.Node{node}, ctx.stack.EnvMap(), depth+1)
+		}
+
 		// For templates, bound attributes modify the current scope (don't create new scope)
 		for _, attr := range node.Attr {
 			// Check for bound attributes (: or v-bind:)
